@@ -6,7 +6,7 @@ import vlib
 
 META = {
     "category": "model_checking",
-    "text": "(Limit-shape names at the 253..257-octet boundary in every section and records of 23 types with hostile inner structure are part of the enumerated messages and of the recorder.) Wire.tla transcribes the wire format (header, questions, records with the RDLENGTH-must-fit rule, RFC 1035 4.1.4 name compression, skip vs parse, the RDATA layouts that embed names, OPT TLVs) and the read-side results derived from it; MsgReader.tla is the section-cursor machine of the read API. TLC checks termination of name parsing (measure), validity of every returned name, skip/parse position agreement, the CNAME bound and fuse/position/idempotence invariants over all call orders. Every enumerated message (header shapes x boundary chunks, ~55k quick) and every call order up to 4-5 calls on 7 hostile/well-formed messages is replayed into Message/QuestionSection/RecordSection (full read battery, twice, plus XfrResponseInterpreter and Label::iter_slice under a watchdog); recorded batteries on library-built, mutated and random messages are validated by TLC.",
+    "text": "(Round 5: the typed views of a record section - limit_to, limit_to_in, into_records over 15 record-data types, their clones, unwrap and next_section - are a view component of the MsgReader cursor machine (actions Limit/Unwrap, cursors opened on any section, invariants ViewIdempotent/ViewFilters/DataErrorGoesOn) and a `typed` component of the projection, walked directly, through a clone and through clone-per-step; records of classes CH/HS/NONE/ANY and RDATA errors inside sections are part of the enumerated messages and the recorder; header bits, records read at an offset, the OPT record and converted/flattened/rebuilt records are observed by every public route.) (Limit-shape names at the 253..257-octet boundary in every section and records of 23 types with hostile inner structure are part of the enumerated messages and of the recorder.) Wire.tla transcribes the wire format (header, questions, records with the RDLENGTH-must-fit rule, RFC 1035 4.1.4 name compression, skip vs parse, the RDATA layouts that embed names, OPT TLVs) and the read-side results derived from it; MsgReader.tla is the section-cursor machine of the read API. TLC checks termination of name parsing (measure), validity of every returned name, skip/parse position agreement, the CNAME bound and fuse/position/idempotence invariants over all call orders. Every enumerated message (header shapes x boundary chunks, ~55k quick) and every call order up to 4-5 calls on 7 hostile/well-formed messages plus 3 mixed-class ones (by two routes: Message<&[u8]> with copied cursors, &Message<[u8]> via AsRef with cloned cursors) is replayed into Message/QuestionSection/RecordSection (full read battery, twice, plus XfrResponseInterpreter and Label::iter_slice under a watchdog); recorded batteries on library-built, mutated and random messages are validated by TLC.",
     "note": "Trusted: TLC, the transcription in Wire.tla, the harness executor. RDATA of types other than NS/CNAME/PTR/MX/SOA/OPT/A/AAAA/private-use is opaque to the spec: for those only 'value or error, no panic, same twice' is checked on the implementation side. Error classes are not compared. Messages above the cap (160 octets in traces) only get the totality clause. Reads outside the buffer that do not panic and unsafe blocks are not judged. Four open known findings: canonical_name u16 overflow at ANCOUNT=0xFFFF, Label::iter_slice self-pointer hang and pointer-loop unbounded iteration, XFR interpreter unreachable!().",
     "technique": "TLA+ specs (Wire.tla, MsgReader.tla) + TLC exhaustive over enumerated messages and call orders; spec->impl case replay; impl->spec trace validation",
     "design_ref": "DESIGN.md §4 C01",
@@ -63,6 +63,37 @@ def _vacuity_proj(path):
                     for o in it[6]["opts"]:
                         if o[0] in (8, 10, 11, 15):
                             seen.add("option:%d" % o[0])
+            # typed views (Wire.tla TViews order: 1 lim.All 2 limin.All 3 any.All 4 lim.A 5 limin.A ...)
+            for x, sec in enumerate(e["typed"]):
+                if not sec:
+                    continue
+                seen.add("typed:sec%d" % (x + 1))
+                if len(sec[1]) < len(sec[0]):
+                    seen.add("typed:limin-passes-over")
+                if len(sec[4]) < len(sec[3]):
+                    seen.add("typed:limin.A-passes-over")
+                if 0 < len(sec[3]) < len(sec[0]):
+                    seen.add("typed:type-filter")
+                for w in sec:
+                    kinds = [el[0] for el in w]
+                    for a, b in zip(kinds, kinds[1:]):
+                        if a == "e":
+                            seen.add("typed:goes-on-after-data-error")
+                    if "o" in kinds:
+                        seen.add("typed:undecided")
+                    if kinds[-1:] == ["e"] and e[("an", "ns", "ar")[x]]["err"]:
+                        seen.add("typed:framing-error")
+                if sec[17] != sec[0]:
+                    seen.add("typed:zone-differs-from-all")
+                if any(el[0] == "r" and el[3] not in (1, 1232) for el in sec[18]):
+                    seen.add("typed:class-not-in")
+            for ra in e["recat"]:
+                if ra[0][0] == 1:
+                    seen.add("recat:record")
+                if ra[0][0] == 0 and ra[1][0] == 1:
+                    seen.add("recat:skip-only")
+            if sum(e["hdrx"]) > 0:
+                seen.add("hdrx")
             if e["q"]["err"]:
                 seen.add("qerr")
             if e["iter"][1] == 2:
@@ -74,7 +105,11 @@ def _vacuity_proj(path):
             "items:an", "items:ns", "items:ar", "rd:names:True", "rd:names:False",
             "rd:opt:True", "rd:opt:False", "rd:fixed:True", "rd:fixed:False", "rd:raw:True",
             "rd:opaque:True", "itererr", "qname255", "owner255:an", "owner255:ns", "owner255:ar",
-            "farpointer", "dnskey:keylen2", "typed:47", "typed:50", "typed:64", "typed:65", "option:8", "option:10", "option:11", "option:15", "typed:16", "typed:45", "typed:250", "dev:D_cname_ancount_overflow",
+            "farpointer", "dnskey:keylen2", "typed:47", "typed:50", "typed:64", "typed:65", "option:8", "option:10", "option:11", "option:15", "typed:16", "typed:45", "typed:250",
+            "typed:sec1", "typed:sec2", "typed:sec3", "typed:limin-passes-over", "typed:limin.A-passes-over",
+            "typed:type-filter", "typed:goes-on-after-data-error", "typed:undecided", "typed:framing-error",
+            "typed:zone-differs-from-all", "typed:class-not-in", "recat:record", "recat:skip-only", "hdrx",
+            "dev:D_cname_ancount_overflow",
             "dev:D_xfr_unreachable_qtype", "dev:D_slice_iter"}
     missing = sorted(need - seen)
     if missing:
@@ -86,10 +121,33 @@ def _vacuity_orders(path):
     with open(path) as f:
         for line in f:
             c = json.loads(line)
-            ops.update(c["in"]["ops"])
-            kinds.update(r["k"] for r in c["exp"]["res"])
-    need_ops = {"next", "nextsec", "fork", "restore", "canon", "opt", "first"}
-    need_k = {"q", "r", "err", "none", "dead", "sec", "nosec", "name", "opt", "ok"}
+            o = c["in"]["ops"]
+            ops.update(o)
+            ops.add("open:%d" % c["in"]["start"])
+            res = c["exp"]["res"]
+            kinds.update(r["k"] for r in res)
+            view = saved_view = None
+            for i, (op, r) in enumerate(zip(o, res)):
+                if "." in op:
+                    view = op
+                elif op in ("unwrap", "nextsec"):
+                    view = None
+                elif op == "fork":
+                    saved_view = view
+                elif op == "restore":
+                    view = saved_view
+                if op == "next" and r["k"] == "err" and i + 1 < len(o) and o[i + 1] == "next" \
+                        and res[i + 1]["k"] in ("tr", "err"):
+                    kinds.add("goes-on-after-data-error")
+                if op == "next" and r["k"] == "tr" and view and view.startswith("limin") \
+                        and i >= 2 and o[i - 1] == "restore" and o[i - 2] == "fork":
+                    kinds.add("limin-walk-from-copy")
+                if op == "next" and r["k"] == "r" and i >= 1 and o[i - 1] == "unwrap":
+                    kinds.add("raw-after-unwrap")
+    need_ops = {"next", "nextsec", "fork", "restore", "canon", "opt", "first", "unwrap",
+                "lim.A", "limin.A", "limin.All", "any.All", "open:0", "open:1", "open:2", "open:3"}
+    need_k = {"q", "r", "tr", "err", "none", "dead", "sec", "nosec", "name", "opt", "ok",
+              "goes-on-after-data-error", "limin-walk-from-copy", "raw-after-unwrap"}
     if need_ops - ops or need_k - kinds:
         raise vlib.ToolError("vacuity: call orders never take %s / never yield %s"
                              % (sorted(need_ops - ops), sorted(need_k - kinds)))
@@ -107,7 +165,7 @@ def run(ctx):
     ctx.require_ok(mc2, "MC_MsgReader")
     ctx.exhaustive_flags.append(True)
     ctx.coverage_actions["MC_Wire:Phase1,Phase2,NWStep"] = (mc.distinct, mc.generated)
-    ctx.coverage_actions["MC_MsgReader:NextItem,NextSection,Fork,Restore,CanonName,OptCall,FirstQ"] = (
+    ctx.coverage_actions["MC_MsgReader:NextItem,NextSection,Fork,Restore,Limit,Unwrap,CanonName,OptCall,FirstQ"] = (
         mc2.distinct, mc2.generated)
 
     # 2. S->I: every enumerated message with its projection
@@ -170,9 +228,32 @@ def run(ctx):
             ok2, _, _ = ctx.validate_trace("Trace_MsgReader", "Trace_MsgReader", bad,
                                            label="trace-selftest", env=env)
             ctx.selftest("corrupted trace is rejected by Trace_MsgReader", not ok2)
+            # a class-limited walk that hands out what only the unlimited one may
+            lines = open(tr).read().splitlines()
+            done = False
+            for j, l in enumerate(lines):
+                o = json.loads(l)
+                if o["ev"] != "read" or o["proj"].get("short"):
+                    continue
+                for sec in o["proj"]["typed"]:
+                    if sec and sec[3] != sec[4]:
+                        sec[4] = sec[3]
+                        done = True
+                        break
+                if done:
+                    lines[j] = json.dumps(o)
+                    break
+            if not done:
+                raise vlib.ToolError("vacuity: no recorded message has a record of a class other than IN "
+                                     "that limit_to_in::<A> passes over")
+            open(bad, "w").write("\n".join(lines) + "\n")
+            ok3, _, _ = ctx.validate_trace("Trace_MsgReader", "Trace_MsgReader", bad,
+                                           label="trace-selftest-typed", env=env)
+            ctx.selftest("a limit_to_in walk that yields other classes is rejected by Trace_MsgReader", not ok3)
 
     ctx.assume("RDATA layouts known to the spec: NS, CNAME, PTR, MX, SOA, OPT, A, AAAA, private-use types; all other types are opaque (value-or-error and repeatability only)")
     ctx.assume("error class is not compared, only accept/reject and where an iterator stops")
     ctx.assume("a name embedded in RDATA is read within the RDATA's limit (as the sub-parser does); RFC 1035 is silent on pointer targets that run past it")
     ctx.assume("Label::iter_slice is executed under a watchdog; once two real hangs have been observed, inputs for which the spec predicts a hang under the open deviation are not executed")
     ctx.assume("messages larger than 160 octets (traces) are checked for totality and repeatability only")
+    ctx.assume("a typed view's element of a type whose layout the spec does not know is 'value or error' (the same outcome in every view that reads it by the same layout); the position of a cursor that has returned an error is not compared (a typed iterator does not tell a framing error from an RDATA error)")
